@@ -113,6 +113,7 @@ type Interp struct {
 	// global iteration-order policies is chosen per path
 	MapOrderPolicies int
 	orderPolicy      int
+	orderBaseline    bool
 	deviated         bool
 
 	// statistics
